@@ -24,6 +24,7 @@ def run(ctx, rep):
         check_src(crate, rep, cfg)
         check_chunkname(crate, rep, cfg)
         check_setsrc(crate, rep, cfg)
+        check_note(crate, rep, cfg)
         import rpanic
         rpanic.check(crate, rep, "R-PANIC.report", ("errors.rs", "reporting.rs", "utils.rs"), cfg, 4)
 
@@ -208,3 +209,32 @@ def check_setsrc(crate, rep, cfg):
     (rep.ok if ok else rep.bad)("C12.SETSRC", key, tn.where(err_tgt), "every return reachable from the Err edge of parse() passes set_source(tpl_name, source) "
                                 "(any other error kind hits the unreachable! discharged by C06.ERRKIND)" + ("" if ok else " — VIOLATED: a syntax error can leave without "
                                                                                                           "its source (Display would slice an empty source)"))
+
+
+def check_note(crate, rep, cfg):
+    """every call of add_note records a note (errors raised inside includes/components name EACH call site), and the note carries
+    the file name, source and span it was given"""
+    b = crate.one("errors::ReportError::add_note")
+    rep.analysed(b)
+    tr = Tracer(b, transparent=T | {"std::string::ToString::to_string", "std::clone::Clone::clone"})
+    import rrec
+    pushes = {bb for bb, t in find_calls(b, ["std::vec::Vec::<T, A>::push"]) if rrec.field_of_arg(tr, t["args"][0]) == ".notes"}
+    reach = b.reach_from(0, removed_blocks=frozenset(pushes))
+    leaks = [x for x in reach if b.term(x)["k"] == "return"]
+    ok = bool(pushes) and not leaks
+    (rep.ok if ok else rep.bad)("C12.NOTE", "C12.NOTE:add_note:always-records", b.where(0), "every path through ReportError::add_note pushes a note (no call site is silently dropped)"
+                                + ("" if ok else " — VIOLATED: a return is reachable without recording the note"))
+    aggs = list(find_aggs(b, "errors::Note", "Note"))
+    ok = len(aggs) == 1
+    if ok:
+        rv = aggs[0][2]["rv"]
+        want = {"label": 2, "filename": 3, "source": 4, "span": 5}
+        for f, pi in want.items():
+            leaves = tr.operand(rv["ops"][rv["fields"].index(f)])
+            if not (leaves and all(l.kind == "param" and l.detail == pi for l in leaves)):
+                ok = False
+    rep.add("C12.NOTE", "C12.NOTE:add_note:fields", ok, b.where(0), "the recorded note carries the label, file name, source and span passed by the caller" + ("" if ok else " — VIOLATED"))
+    # the VM adds a note for an error coming out of an include and out of each component expansion
+    vm = crate.one("vm::interpreter::VirtualMachine::<'tera>::interpret")
+    n = len(list(find_calls(vm, ["errors::ReportError::add_note"])))
+    rep.floor("C12.NOTE", "add_note call sites in the VM (include + component expansions) [%s]" % cfg, n, 3)
